@@ -81,7 +81,17 @@ func c09Tree(fs *simfs.FS) {
 	fs.MkPath("/=s")
 }
 
-func c09Cases() int { return len(c09Fields)*len(c09Names) + len(c09Attach) + len(c09Through)*2 }
+func c09Cases() int { return len(c09Fields)*len(c09Names) + len(c09Attach) + len(c09Through)*4 }
+
+func msgNames(m rc.Message) []string {
+	switch t := m.(type) {
+	case *rc.Twalk:
+		return t.Names
+	case *rc.Twalkgetattr:
+		return t.Names
+	}
+	return nil
+}
 
 func runC09(rcx *RunCtx) {
 	cfg := simCfg(rcx)
@@ -90,6 +100,7 @@ func runC09(rcx *RunCtx) {
 	var expectReject bool   // must be EINVAL
 	var expectNoReject bool // must NOT fail because of the name
 	var nameUsed string
+	var stepwise []string // components walked by earlier requests, binding fid 8
 	switch {
 	case idx < len(c09Fields)*len(c09Names):
 		f := c09Fields[idx/len(c09Names)]
@@ -117,15 +128,24 @@ func runC09(rcx *RunCtx) {
 		}
 	case idx < c09Cases():
 		k := idx - len(c09Fields)*len(c09Names) - len(c09Attach)
-		names := c09Through[k/2]
-		if k%2 == 0 {
-			msg = &rc.Twalk{Fid: 0, NewFid: 9, Names: names}
-		} else {
-			msg = &rc.Twalkgetattr{Fid: 0, NewFid: 9, Names: names}
-		}
-		nameUsed = strings.Join(names, "/")
+		names := c09Through[k/4]
+		from := uint32(0)
 		rcx.Label = "walk-through-non-directory"
-		expectReject = len(names) > 1
+		if k%4 >= 2 && len(names) > 1 {
+			// the same path, one request per component: the last request
+			// starts from a fid that is bound to the non-directory
+			stepwise = names[:len(names)-1]
+			names = names[len(names)-1:]
+			from = 8
+			rcx.Label = "walk-from-non-directory-fid"
+		}
+		if k%2 == 0 {
+			msg = &rc.Twalk{Fid: from, NewFid: 9, Names: names}
+		} else {
+			msg = &rc.Twalkgetattr{Fid: from, NewFid: 9, Names: names}
+		}
+		nameUsed = strings.Join(c09Through[k/4], "/")
+		expectReject = len(c09Through[k/4]) > 1
 	default:
 		// random: a random field with a randomly mangled name
 		f := c09Fields[rcx.Plan.Choose(len(c09Fields))]
@@ -162,6 +182,16 @@ func runC09(rcx *RunCtx) {
 			rcx.Find("C09", "setup", "setup", "setup failed")
 			return
 		}
+		for i, n := range stepwise {
+			src := uint32(8)
+			if i == 0 {
+				src = 0
+			}
+			if Errno(c.RPC(&rc.Twalk{Fid: src, NewFid: 8, Names: []string{n}})) != 0 {
+				rcx.Find("C09", "setup", "setup", "setup failed: step %q", n)
+				return
+			}
+		}
 		mark := len(fs.Calls)
 		rep := c.RPC(msg)
 		calls := fs.Calls[mark:]
@@ -172,6 +202,10 @@ func runC09(rcx *RunCtx) {
 			}
 			for _, cl := range calls {
 				if cl.Method == "Close" || cl.Method == "Attach" || cl.Method == "GetAttr" {
+					continue
+				}
+				if rcx.Label == "walk-from-non-directory-fid" {
+					rcx.Find("C09", "walk-from-non-directory", rcx.Label, "a walk of %q from a fid bound to a non-directory (%s) reached the backend: %s", msgNames(msg), show, cl)
 					continue
 				}
 				if _, isAttach := msg.(*rc.Tattach); isAttach || rcx.Label == "walk-through-non-directory" {
@@ -216,7 +250,7 @@ func init() {
 		Run:  runC09,
 		Directed: func(string) int { return c09Cases() },
 		Quick:    24000, Thorough: 300000, QuickSecs: 60, ThorSecs: 900,
-		Rule:  fmt.Sprintf("directed: %d name-bearing request fields x %d names (empty, dots, embedded/leading/trailing slashes, NUL, high bytes, 255 and 65535 bytes, harmless look-alikes '..a' 'a..' '...') + %d attach names + walks through file/symlink/fifo/chr/socket intermediates, all in every tier; random: mangled names in random fields. Oracle: backend call log — no component empty, '.', '..' or containing '/' is ever received by any File method; Walk/WalkGetAttr with a name only on receivers the backend reported as directories and one component at a time; unsafe requests answered EINVAL; harmless names (and symlink targets, free text) are not refused. This is an input property: the simulator is the vehicle (real server stack, ownership of every call); the search is over names and fields, not schedules.", len(c09Fields), len(c09Names), len(c09Attach)),
+		Rule:  fmt.Sprintf("directed: %d name-bearing request fields x %d names (empty, dots, embedded/leading/trailing slashes, NUL, high bytes, 255 and 65535 bytes, harmless look-alikes '..a' 'a..' '...') + %d attach names + walks through file/symlink/fifo/chr/socket intermediates in one request and one request per component (the last starting from a fid bound to the non-directory), all in every tier; random: mangled names in random fields. Oracle: backend call log — no component empty, '.', '..' or containing '/' is ever received by any File method; Walk/WalkGetAttr with a name only on receivers the backend reported as directories and one component at a time; unsafe requests answered EINVAL; harmless names (and symlink targets, free text) are not refused. This is an input property: the simulator is the vehicle (real server stack, ownership of every call); the search is over names and fields, not schedules.", len(c09Fields), len(c09Names), len(c09Attach)),
 		Assume: []string{"an attach name with an empty path after one leading slash is the root attach"},
 		Real:   []string{"p9.Server", "p9 handlers", "p9 wire codec"},
 		Stub:   []string{"transport (simnet pipes)", "backend tree (simfs)", "raw 9P peer (refcodec)"},
